@@ -640,7 +640,8 @@ func (p *Parser) parseGlobalWindow(stmt *SelectStatement) error {
 	// downstream clause parsers (parseWith/parseHaving/...) can see it — same
 	// convention as parseWindowFunction leaving the token after ")" in place.
 	var parts []string
-	maxIter := 100
+	// bounded by the statement length, not by a constant: a long predicate must not be dropped
+	maxIter := len(p.input) + 100
 	iter := 0
 	for {
 		iter++
